@@ -1,6 +1,7 @@
 CONSTANTS
   Fixed = TRUE
   MaxJumps = 16
+  PtrMask = 16384
   ResetOnLabel = TRUE
   Dgrams <- DgCycles
 SPECIFICATION PSpec
